@@ -174,7 +174,7 @@ def run_chunk(chunk, ctx):
         if status == "gap":
             col.gap(str(res)[:100])
         elif status == "timeout":
-            col.gap("path timeout")
+            col.count("slow_paths_not_analysed")
         elif status == "ok" and not cur.get("viol") and col.want_witness():
             col.add_witness(case_of(ex.model()), dict(ok=True))
 
